@@ -13,5 +13,8 @@ MCCfgsSmall == {"Co60", "Mo100.2.1", "Zr96.0.20"}
 MCCfgsWindow == {"Nd148.5.4", "Nd148.5.4@0.002:0.005", "Nd148.5.4@0.003:0.0065"}
 \* the three nuclides of the quadruple-beta mode: one mode, three different energy releases
 MCCfgsFour == {"Zr96.0.20", "Xe136.0.20", "Nd150.0.20"}
+\* the modes whose second lepton is drawn against a majorant scanned per event (5, 6, 8, 13-16): what one event leaves in the
+\* per-event table must not reach the next
+MCCfgsScan == {"Mo100.0.5", "Mo100.0.13", "Mo100.1.8"}
 MCCfgsMid == {"Co60", "Bi207", "Mo100.2.1", "Ge76.2.1", "Nd150.3.7"}
 =============================================================================
